@@ -8,8 +8,8 @@ D=$(mktemp -d /tmp/yaqlseed.XXXXXX)
 git -C /repo worktree add -q --detach "$D/wt" HEAD
 if ! git -C "$D/wt" apply "$SD/patch.diff"; then echo "PATCH DOES NOT APPLY"; git -C /repo worktree remove --force "$D/wt"; rm -rf "$D"; exit 3; fi
 ( cd "$D/wt" && PYTHONPATH="$D/wt" PYTHONWARNINGS=ignore /venv/bin/python -m pytest -q -p no:cacheprovider 2>&1 | tail -1 | sed 's/^/tests with change: /' )
-( cd "$D" && PYTHONPATH="$D/wt" PYTHONWARNINGS=ignore timeout 300 /venv/bin/python "$SD/demo.py" >/dev/null 2>&1; echo "demo with change: exit $?" )
-( cd "$D" && PYTHONPATH=/repo PYTHONWARNINGS=ignore timeout 300 /venv/bin/python "$SD/demo.py" >/dev/null 2>&1; echo "demo without change: exit $?" )
+( cd "$SD" && PYTHONPATH="$D/wt" PYTHONWARNINGS=ignore timeout 300 /venv/bin/python "$SD/demo.py" >/dev/null 2>&1; echo "demo with change: exit $?" )
+( cd "$SD" && PYTHONPATH=/repo PYTHONWARNINGS=ignore timeout 300 /venv/bin/python "$SD/demo.py" >/dev/null 2>&1; echo "demo without change: exit $?" )
 for C in "$@"; do
   TIER=${SEED_TIER:-quick}
   OUT=$(VERIF_EVIDENCE_DIR="$D/ev" VERIF_REPLAY_DIR="$D/rp" YAQL_REPO="$D/wt" /verif/check "$C" --tier "$TIER" 2>/dev/null)
